@@ -16,6 +16,12 @@ SCHEMA_FIELDS = [
 ]
 
 
+SCHEMAS = {
+    "A": SCHEMA_FIELDS,
+    "B": SCHEMA_FIELDS + [{"id": 3, "name": "w", "type": "string", "required": False}],
+}
+
+
 def schema(schema_id: int = 1, fields: Optional[list] = None):
     from datashard import Schema
     return Schema(schema_id=schema_id, fields=copy.deepcopy(fields or SCHEMA_FIELDS))
@@ -153,6 +159,39 @@ def exec_op(ctx: Ctx, op: dict, rec: dict) -> Any:
         ctx.drop()
         t = ctx.table
         return True
+    if kind in ("create", "load", "ctor"):
+        import datashard
+        ctx.drop()
+        sname = op.get("schema")
+        sch = schema(1, SCHEMAS[sname]) if sname else None
+        if kind == "create":
+            ctx._table = datashard.create_table(w.table_path, schema=sch)
+        elif kind == "load":
+            ctx._table = datashard.load_table(w.table_path)
+        else:
+            ctx._table = datashard.Table(w.table_path, create_if_not_exists=True, schema=sch)
+        md = ctx._table.metadata_manager.refresh()
+        res["uuid"] = md.table_uuid if md else None
+        return res["uuid"]
+    if kind == "observe":
+        t = ctx._table
+        if t is None:
+            res["uuid"] = None
+            return None
+        md = t.metadata_manager.refresh()
+        res["uuid"] = md.table_uuid if md else None
+        res["schema_fields"] = [s.fields for s in md.schemas if s.schema_id == md.current_schema_id][:1] if md else None
+        return res["uuid"]
+    if kind == "first_append":
+        import datashard
+        if ctx._table is None:
+            ctx._table = datashard.Table(w.table_path, create_if_not_exists=True)
+        rows = mkrows(op["tag"], op.get("n", 1))
+        res["appends"] = [rows]
+        sname = op.get("schema")
+        sch = schema(1, SCHEMAS[sname]) if sname else None
+        res["passed_schema"] = bool(sname)
+        return ctx._table.append_records(rows, schema=sch)
     t = ctx.table
     if kind == "append":
         rows = mkrows(op["tag"], op.get("n", 2))
